@@ -78,6 +78,7 @@ var smPkgs = map[string]bool{
 
 type Engine struct {
 	writesMemo map[*ssa.Function]bool
+	globalInit map[*ssa.Global]*Term
 	Dir        string
 	transient  map[*types.TypeName]bool
 	Pkgs       []*packages.Package
